@@ -19,22 +19,24 @@ type tagMacroNode struct {
 
 func (node *tagMacroNode) Execute(ctx *ExecutionContext, writer TemplateWriter) *Error {
 	ctx.Private[node.name] = func(args ...*Value) (*Value, error) {
-		ctx.macroDepth++
-		defer func() {
-			ctx.macroDepth--
-		}()
-
-		if ctx.macroDepth > maxMacroDepth {
-			return nil, ctx.Error(fmt.Sprintf("maximum recursive macro call depth reached (max is %v)", maxMacroDepth), node.position)
-		}
-
 		return node.call(ctx, args...)
 	}
 
 	return nil
 }
 
+// call executes the macro. Every way to get here (locally defined and imported
+// macros) is subject to the recursion limit.
 func (node *tagMacroNode) call(ctx *ExecutionContext, args ...*Value) (*Value, error) {
+	ctx.macroDepth++
+	defer func() {
+		ctx.macroDepth--
+	}()
+
+	if ctx.macroDepth > maxMacroDepth {
+		return nil, ctx.Error(fmt.Sprintf("maximum recursive macro call depth reached (max is %v)", maxMacroDepth), node.position)
+	}
+
 	argsCtx := make(Context)
 
 	for k, v := range node.args {
